@@ -26,7 +26,9 @@ REQUIRED = ["no-force attempts refused", "force imports compared with solitary i
             "old databases with un-checkpointed WAL frames", "attempts on a database locked by another connection",
             "GTF databases built without inference", "look-ups of ids known only as relation parents",
             "attempts through an open connection to the existing database", "databases that already hold derived introns",
-            "read sequences on a handle holding an uncommitted failed write", "databases whose stored dialect is null"]
+            "read sequences on a handle holding an uncommitted failed write", "databases whose stored dialect is null",
+            "read sequences on a handle that committed a delete, an update and a hand-made relation before",
+            "generators left suspended after their first item"]
 ASSUMPTIONS = [
     "'content untouched' is judged on the independent content dump (byte identity of the file is recorded as a monitor, not demanded)",
     "exceptions raised by a read-style call (e.g. bed12 on non-spanning blocks) are not this property's concern; the call still must not write",
@@ -175,8 +177,18 @@ def pair(ctx, case):
                 os.unlink(p)
 
 
+ABANDON = [False]      # set per call: generators are left suspended after their first item instead of being drained
+SUSPENDED = []         # suspended generators are kept alive until the read sequence is over
+
+
 def drain_gen(x):
     n = 0
+    if ABANDON[0] and hasattr(x, "__next__"):
+        for item in x:
+            n += 1
+            break
+        SUSPENDED.append(x)
+        return n
     for item in x:
         n += 1
         if isinstance(item, list):
@@ -228,8 +240,11 @@ def one_call(db, name, rng, ids, feats):
         return drain_gen(db.region(seqid=rng.choice([seqid, None]), start=rng.choice([s, None]), end=rng.choice([e, None]), **kw))
     if name == "interfeatures":
         src = list(db.features_of_type(rng.choice(["exon", "gene", "CDS"]), order_by=("seqid", "start")))
+        other_dialect = {"leading semicolon": False, "trailing semicolon": True, "quoted GFF2 values": True, "field separator": "; ",
+                         "keyval separator": " ", "multival separator": ",", "fmt": "gtf", "repeated keys": False, "order": ["gene_id"]}
         return drain_gen(db.interfeatures(src, new_featuretype=rng.choice([None, "gap"]), merge_attributes=rng.random() < 0.7,
-                                          numeric_sort=rng.random() < 0.3, update_attributes=rng.choice([None, {"k": ["v"]}])))
+                                          numeric_sort=rng.random() < 0.3, update_attributes=rng.choice([None, {"k": ["v"]}]),
+                                          dialect=rng.choice([None, None, other_dialect, dict(db.dialect or {}) or None])))
     if name == "create_introns":
         return drain_gen(db.create_introns(merge_attributes=rng.random() < 0.7, numeric_sort=rng.random() < 0.3))
     if name == "create_splice_sites":
@@ -287,13 +302,39 @@ def reads(ctx, case):
             except Exception:
                 pass
             w.conn.close()
-        before, h0 = dbdump.dump(dbfn), sha(dbfn)
         sqltrace.reset()
         db = gffutils.FeatureDB(dbfn, keep_order=case["seed"] % 2 == 0)
         serial = getattr(db.conn, "gv_serial", None)
         if serial is None:
             from gvmon.run import Inconclusive
             raise Inconclusive("gffutils' connection is not a traced connection")
+        if case.get("prior_writes"):
+            # the reading handle has a past: it deleted a feature in the middle of a hierarchy, added features and a
+            # hand-made second-level relation (all committed).  What it reads afterwards still writes nothing.
+            try:
+                pre = dbdump.dump(dbfn)
+                parents_of = {}
+                for p_, c_, l_ in pre["relations"]:
+                    if l_ == 1:
+                        parents_of.setdefault(c_, []).append(p_)
+                fids = [f["id"] for f in pre["features"]]
+                mids = [c_ for c_ in fids if c_ in parents_of and any(r[0] == c_ and r[2] == 1 for r in pre["relations"])]
+                if mids:
+                    db.delete(mids[case["seed"] % len(mids)], make_backup=False)
+                db.update("chrW\tsrc\tgene\t5\t90\t.\t+\t.\tID=later_gene\nchrW\tsrc\tmRNA\t5\t90\t.\t+\t.\tID=later_tx;Parent=later_gene\n"
+                          if case["fmt"] == "gff3" else
+                          'chrW\tsrc\texon\t5\t90\t.\t+\t.\tgene_id "later_gene"; transcript_id "later_tx";\n',
+                          from_string=True, make_backup=False, merge_strategy="create_unique")
+                if len(fids) >= 2:
+                    db.add_relation(fids[0], fids[-1], 2)
+                ctx.mon("read sequences on a handle that committed a delete, an update and a hand-made relation before")
+            except Exception:
+                ctx.mon("prior writes raised (not judged)")
+                try:
+                    db.conn.rollback()
+                except Exception:
+                    pass
+        before, h0 = dbdump.dump(dbfn), sha(dbfn)
         ids = [f["id"] for f in before["features"]]
         pending = False
         if case.get("pending") and len(ids) >= 2:
@@ -315,6 +356,9 @@ def reads(ctx, case):
         per_method = {}
         for name in case["calls"]:
             l0, a0, t0 = len(sqltrace.LOG), len(sqltrace.AUTH), db.conn.total_changes
+            ABANDON[0] = bool(case.get("abandon")) and rng.random() < 0.5
+            if ABANDON[0]:
+                ctx.mon("generators left suspended after their first item")
             try:
                 if name == "missing_key" and only_related and rng.random() < 0.7:
                     k = rng.choice(only_related)
@@ -339,6 +383,13 @@ def reads(ctx, case):
                                      "total_changes_delta": db.conn.total_changes - t0, "in_transaction": db.conn.in_transaction,
                                      "uncommitted_failed_write_before": pending, "transaction_ended_by": ended[:3]})
                 return
+        ABANDON[0] = False
+        for g in SUSPENDED:
+            try:
+                g.close()
+            except Exception:
+                pass
+        del SUSPENDED[:]
         ctx.mon("statements traced on gffutils' connection", len([1 for n, _ in sqltrace.LOG[log0:] if n == serial]))
         ctx.mon("authorizer events seen", len([1 for a in sqltrace.AUTH[auth0:] if a[0] == serial]))
         db.conn.close()
@@ -379,7 +430,7 @@ def run(ctx):
         calls = [rng.choice(METHODS) for _ in range(40)]
         case = {"kind": "reads", "seed": rng.randrange(10 ** 6), "fmt": rng.choice(["gff3", "gff3", "gtf"]), "calls": calls,
                 "no_infer": rng.random() < 0.4, "stored_derived": rng.random() < 0.3, "pending": rng.random() < 0.2,
-                "null_dialect": rng.random() < 0.12}
+                "null_dialect": rng.random() < 0.12, "prior_writes": rng.random() < 0.25, "abandon": rng.random() < 0.4}
         execute(ctx, case)
         ctx.case(("reads", case["seed"], case["fmt"], calls), len(set(calls)) >= 6, sample=case if rng.random() < 0.05 else None,
                  cls="read sequence on %s db" % case["fmt"])
